@@ -101,7 +101,12 @@ fn gen_frame(r: &mut Rng, out: &mut Vec<u8>) -> &'static str {
         15 => Frame::StreamsBlocked { bidi: r.bool(), limit: bv(r) },
         16 | 17 => {
             let seq = if r.chance(80) { r.below(12) } else { bv(r) };
-            let rpt = if r.chance(70) { r.below(seq + 1) } else { bv(r) };
+            // (retire_prior_to anywhere below, right at, or above the sequence number)
+            let rpt = match r.below(4) {
+                0 | 1 => r.below(seq + 1),
+                2 => seq - r.below(4).min(seq),
+                _ => bv(r),
+            };
             let len = *r.pick(&[0usize, 1, 4, 8, 8, 8, 20, 21, 255]);
             let mut tok = [0u8; 16];
             r.fill(&mut tok);
